@@ -153,3 +153,14 @@ CHECKS["C20"] = {
     "units": [{"name": "c20", "pkg": "pkg/http2", "overlay": "http2", "run": "^TestVerifSched$", "shards": 12}],
     "expect_checks": ["c20.sched"],
 }
+
+CHECKS["C18"] = {
+    "level": "exploration",
+    "technique": "property-based testing (rapid) + native go fuzzing of pkg/http2/hpack: encoder->decoder histories with table-size changes (round trip, table contents read back through the API by probing indexed representations), decoder on grammar-generated and raw byte blocks cut into Write fragments, Huffman round trip; oracles: independent RFC 7541 reference decoder (harness/ref/hpackref), result independent of fragmentation, differential against the pristine golang.org/x/net v0.19.0 hpack package in the module cache",
+    "rule": "roundtrip: case = 1..30 operations (header block of 0..8 fields with arbitrary bytes / long / sensitive fields, encoder SetMaxDynamicTableSize, SETTINGS_HEADER_TABLE_SIZE change); non-trivial = the history causes at least one eviction and one size update. decode: case = 1..5 blocks built from a representation grammar (valid/invalid indices, the three literal kinds, size updates, plain/Huffman strings with good and bad padding, redundant and oversized varints, truncation) each with a fragmentation; non-trivial = a block longer than 2 bytes fed in several fragments. Distinct by hash of the script.",
+    "level_text": "Generated-input search against a reference decoder written from RFC 7541 plus differential and metamorphic (fragmentation) oracles; no panic; table size never above the maximum in force. Where the RFC leaves a limit to the implementation (integers above 2^32 or with more than 5 continuation octets, a size update after the first field) either outcome is admitted.",
+    "level_note": "Trusted: harness/ref/hpackref (static table typed in from RFC 7541 Appendix A; Huffman code table obtained as data from the pristine x/net package's exported API, decoded by an own bit-walk). pkg/http2/hpack is not the package the forked server imports (it imports x/net's); it is tested standalone.",
+    "assumptions": ["a decoding error ends the connection: histories stop at the first rejected block"],
+    "units": [{"name": "c18", "pkg": "c18", "run": "^Test", "shards": 8, "fuzz": [{"name": "FuzzDecode", "seconds": 90}]}],
+    "expect_checks": ["c18.roundtrip", "c18.decode", "c18.huffman"],
+}
